@@ -220,6 +220,32 @@ CLAIMS: dict[str, tuple[str, str, str, str]] = {
         "Lean 4 proof (chain membership, option dict laws) + provenance/extension oracle",
         "§6 C10",
     ),
+    "C16": (
+        "PARTIAL, with FULL theorems for the env mechanism: record_lookup/first_wins (references only ever extended, from "
+        "any env: whatever a label resolved to, it still does), recorded_once (every definition is recorded exactly once, as "
+        "first definition or as duplicate), seed_eq_prepend (the bookkeeping of R then D equals that of R ++ D), "
+        "normRef_trim (label normalisation ignores surrounding whitespace, for every whitespace predicate and fold). "
+        "MISSING: 'parse(D, env after R) = parse(R+D)' on whole token streams is C07.concat with A := R, and reference "
+        "form == inline form needs the link rules: both decided by the oracle (HTML of seeded vs prepended under fresh/"
+        "seeded/seeded-twice histories; (text,dest,title) grid; label variants). Case folding is interpreter behaviour: a "
+        "parameter, its idempotence checked exhaustively each run. Tie: definitions found by each parse (definition tokens) "
+        "fed to the model per env history; model env must equal real env.",
+        NOTE + "str.strip / \\s / str.lower().upper() are parameters of the model.",
+        "Lean 4 proof (monotone env invariant over definition sequences) + env-history correspondence + oracle",
+        "§6 C16",
+    ),
+    "C18": (
+        "PARTIAL, with FULL theorems on the renderer model for the option clauses: xhtml_local (toggling xhtmlOut changes "
+        "only the slash flag of tag pieces, for every stream), breaks_local + softbreak_as_hardbreak, langPrefix_local, "
+        "alt_independent; the parser model has no renderer option in its type. MISSING: the parseInline/renderInline and "
+        "block-context clauses rest on the block rules handing the inline parser exactly the text (block rules not "
+        "modelled): decided by the oracle (single-paragraph inputs; 5 contexts; token streams under all 16 option "
+        "combinations; HTML under each combination equals the baseline after the documented local change). Tie: renderer "
+        "model vs real renderer (shared with C04) + option keys read during parse recorded by a logging OptionsDict.",
+        NOTE,
+        "Lean 4 proof (locality of renderer options on the piece model) + differential rendering + option-read audit",
+        "§6 C18",
+    ),
 }
 
 PENDING_REASON = "check under construction in this session (Lean model + theorems not yet committed); not claimed until its check exists"
